@@ -26,6 +26,10 @@ func checkC10(w *World, r *Report) {
 	checkC10MustValidate(w, r)
 	checkC10Scanner(w, r)
 	checkC10HostAlphabet(w, r)
+	// "every accepted pattern is routable": the matcher compares the pattern's host bytes with the request host as it is,
+	// apart from the port and one trailing dot (rule C09.2, repeated here); any other rewriting of the host (case folding)
+	// makes accepted patterns unreachable
+	checkC09StripAs(w, r, "C10.8")
 }
 
 func checkC10MustValidate(w *World, r *Report) {
